@@ -1,5 +1,5 @@
 """C17 — orderly shutdown in any order leaves nothing behind."""
-import core, pubsub_common as ps
+import core, json, pubsub_common as ps
 import pC05ports
 
 
@@ -31,6 +31,29 @@ def run(ctx):
                             line_oracle=shutdown_oracle)
         # the same for the event pattern: node handle, service handle, notifiers, listeners
         pC05ports.ports_part(ctx, "C17")
+        # request-response object graphs: clients / servers / loaned requests / pending responses / active requests / responses dropped in any
+        # order while the survivors are used (generator modes `churn` and `loans` of the reqres component, model ReqRes.lean). The component is
+        # run under a shadow context of C11 so that C11's open findings (routing, limits) stay that check's business; every OTHER disagreement
+        # is a survivor that stopped working or a drop that misbehaved, and is reported here
+        import pC11
+        sh = core.Ctx("C11", ctx.tier, ctx.seed, None)
+        lo = pC11.make_line_oracle()
+        core.diff_component(sh, "reqres", ["gen", "--seed", ctx.seed + 41, "--cases", 500 if quick else 5000, "--len", 100 if quick else 140, "churn"],
+                            pC11.classify, label="reqres.churn", line_oracle=lo, shrink=False)
+        core.diff_component(sh, "reqres", ["gen", "--seed", ctx.seed + 43, "--cases", 300 if quick else 3000, "--len", 100 if quick else 160, "loans"],
+                            pC11.classify, label="reqres.loans", line_oracle=lo, shrink=False)
+        ctx.evaluations += sh.evaluations
+        ctx.distinct |= sh.distinct
+        for k, v in sh.hist.items():
+            ctx.hist["reqres." + str(k)] = ctx.hist.get("reqres." + str(k), 0) + v
+        for v in sh.violations:
+            try:
+                obj = json.load(open(v["replay"]))
+            except Exception:
+                obj = dict(engine="seqdiff", component="reqres")
+            ctx.violation("reqres-graph:" + v["key"], v["what"], obj, nfi=v["nfi"])
+        import shutil
+        shutil.rmtree(sh.rundir, ignore_errors=True)
     return core.finish(
         ctx, level="proof",
         rule="object graphs of a publish-subscribe service in one node: node handle, service handle (port factory), publishers, subscribers, unsent loans, received samples; "
@@ -39,6 +62,6 @@ def run(ctx):
              "2 notifiers, 2 listeners: 720 orders x 2 configurations, plus random graphs on 1..2 nodes; survivors notify / wait between drops); after every drop the set of existing resources by kind (node "
              "monitor files, node details, node directory, service tag, static config, dynamic config, port tags, data segments, connections: files of the case's own config prefix "
              "under the iceoryx2 root and /dev/shm) is compared with the model's `resources`; oracle on the implementation alone: no panic, nothing left after the last drop",
-        extra_assumptions=["publish-subscribe and event only; request-response / blackboard object graphs and wait-set guards are not enumerated (their ports follow the same tag-first / registry-last pattern by reading)",
+        extra_assumptions=["file-system footprint after every drop: publish-subscribe and event only; request-response object graphs (ports, loaned requests, pending responses, active requests, responses dropped in any order, survivors used in between) are compared with the ReqRes model for behaviour only (random orders, not all permutations); blackboard object graphs and wait-set guards are not enumerated",
                            "one node per case; several nodes sharing the service are covered by the registry theorems (C10) only",
                            "the local variant has no file-system footprint: only behaviour and panics are compared there"])
